@@ -207,7 +207,8 @@ _SEL_ASSUME = [
 PROPS["C20"] = {
     "functions": ["net::selector::mio_adapter::Poller::{do_register,do_reregister,do_select}", "<mio::event::Event as selector::Event>::get_token",
                   "Selector::{add_read_event,add_write_event,select,register}"],
-    "bounds": "loop-free integer code: every u64 token / coroutine id, every non-negative descriptor number; 2 coroutine ids, 2 descriptors.",
+    "bounds": "loop-free integer code: every u64 token / coroutine id, every non-negative descriptor number; 2 coroutine ids, 2 descriptors; a reader and a "
+              "writer (distinct symbolic tokens) on one descriptor in either registration order, one of the two interests dropped, then readiness for the other.",
     "outside": "EventLoop::resume -> Scheduler::try_resume (the lookup by the decoded token is a set removal keyed by the same value); "
                "readiness timing on a real epoll; io_uring/IOCP tokens.",
     "assumptions": _SEL_ASSUME,
@@ -297,12 +298,15 @@ _C02_SUBS = [
 PROPS["C02"] = {
     "functions": ["co_pool::CoroutinePool::{new,submit_task,submit_raw_task,try_run,wait_task_result,try_take_task_result,notify}",
                   "co_pool::task::Task::{new,run}", "common::CondvarBlocker::notify",
-                  "ordered_work_steal::OrderedLocalQueue::{push_with_priority,pop} (task queue)"],
+                  "ordered_work_steal::OrderedLocalQueue::{push_with_priority,pop} (task queue)", "net::join::JoinHandle::{new,id,timeout_at_join}"],
     "bounds": "1 task with a symbolic result; 1 waiter and 1 completer thread, the completer's whole step (pop, run, "
               "store result, notify) placed at each of the scheduling points of wait_task_result (case split, completeness asserted) "
-              "or while the waiter is blocked (24 positions: 8 in the quick tier, all in the thorough tier); 2 pools sharing the abstract task queue (E12).",
+              "or while the waiter is blocked (24 positions: 8 in the quick tier, all in the thorough tier); a second join after one that timed out; "
+              "2 pools sharing the abstract task queue (E12); JoinHandle::timeout_at_join on a finished task for every clock value and every deadline that is "
+              "expired, now, or less than 1 s ahead.",
     "outside": "panicking tasks (E4: no unwinding under Kani), the coroutine-caller branch of wait_task_result, spurious wake-ups, "
-               "more than one pre-emption, real Condvar/futex behaviour, JoinHandle/EventLoops wrappers (they forward to wait_task_result).",
+               "more than one pre-emption, real Condvar/futex behaviour, deadlines a second or more ahead at the handle layer (no symbolic division), "
+               "the EventLoops/C-ABI wrappers above JoinHandle.",
     "assumptions": ["E5: Mutex/Condvar replaced by the verif_sync model (blocking wait = the other thread runs to completion; records full timeouts)",
                     "dashmap / st3 / crossbeam-skiplist / crossbeam-deque / rand model crates; queue beans pre-created with 2 local queues of capacity 2",
                     "common::now stubbed; alloc::fmt::format stubbed"],
@@ -323,14 +327,15 @@ PROPS["C02"] = {
 PROPS["C12"] = {
     "functions": ["co_pool::state::{stopping,stopped,change_state}", "CoroutinePool::{submit_task,do_clean,wait_task_result,notify,size}"],
     "bounds": "arbitrary pool state, 3 symbolic lifecycle requests; one submission from an arbitrary state; one waiter (any non-zero task id) "
-              "blocked while the pool is cleaned up.",
+              "blocked while the pool is cleaned up, or polling (a wait that timed out before the clean-up and one after it).",
     "outside": "'every task accepted earlier runs before stop reports success' and the event-loop drain (need the scheduling loop with real worker "
                "coroutines); concurrent submit/stop interleavings beyond the one block point.",
     "assumptions": ["E5 verif_sync Mutex/Condvar model", "queue beans pre-created small; model crates"],
     "groups": [
         {"mounts": [("c02_join.rs", "co_pool/mod.rs")], "subs": _C02_SUBS, "cfgs": ["ocv_small"],
-         "harnesses": ["c12_lifecycle_only_moves_forward", "c12_stop_rejects_new_work", "c12_stop_settles_waiters", "c12_stop_settles_a_waiter_that_polls"],
-         "thorough_harnesses": ["c12_running_pool_accepts_work"],
+         "harnesses": ["c12_lifecycle_only_moves_forward", "c12_stop_rejects_new_work", "c12_stop_settles_waiters", "c12_stop_settles_a_waiter_that_polls_fixed_id"],
+         # (the symbolic-id twin needs 28 GB and 260 s of SAT on an idle machine and ended without a verdict under load: thorough tier)
+         "thorough_harnesses": ["c12_running_pool_accepts_work", "c12_stop_settles_a_waiter_that_polls"],
          "timeout": 1200, "timeout_thorough": 3000, "jobs": 2, "mem_gb": 28},
     ],
 }
@@ -349,16 +354,17 @@ PROPS["C11"] = {
     ],
 }
 PROPS["C13"] = {
-    "functions": ["CoroutinePool::{try_cancel_task,try_run,submit_task,wait_task_result}", "CANCEL_TASKS / RUNNING_TASKS bookkeeping"],
-    "bounds": "2 queued tasks with symbolic priorities/values, a symbolic one of them cancelled before it starts; 1 waiter blocked while the worker meets "
-              "the cancelled task.",
+    "functions": ["CoroutinePool::{try_cancel_task,try_run,submit_task,wait_task_result,clean_task_result}", "CANCEL_TASKS / RUNNING_TASKS bookkeeping"],
+    "bounds": "2 queued tasks with symbolic priorities/values, a symbolic one of them cancelled before it starts (a late waiter of the cancelled one and "
+              "a waiter of the other one afterwards); 1 waiter blocked while the worker meets the cancelled task; cancel followed by the drop of the "
+              "task's handle (what JoinHandle::try_cancel(self) does); a repeated cancel after the worker - a coroutine - discarded the task.",
     "outside": "cancelling a RUNNING or SUSPENDED task (signal delivery to the scheduling thread, Scheduler::try_cancel_coroutine - needs real "
                "coroutine bodies; the cross-coroutine leak of a cancel request is decided under C09).",
     "assumptions": ["E5 verif_sync Mutex/Condvar model", "queue beans pre-created small; model crates"],
     "groups": [
         {"mounts": [("c02_join.rs", "co_pool/mod.rs")], "subs": _C02_SUBS, "cfgs": ["ocv_small"],
-         "harnesses": ["c13_cancel_first_queued_task", "c13_cancel_second_queued_task", "c13_waiter_of_a_cancelled_task_is_not_left_blocked", "c13_cancel_then_drop_of_the_handle_keeps_the_task_cancelled", "c13_repeated_cancel_of_a_discarded_task_reaches_no_worker"],
-         "timeout": 1500, "jobs": 2, "mem_gb": 30},
+         "harnesses": ["c13_cancel_first_queued_task", "c13_cancel_second_queued_task", "c13_waiter_of_a_cancelled_task_is_not_left_blocked", "c13_late_waiter_of_a_cancelled_task_is_answered", "c13_cancel_then_drop_of_the_handle_keeps_the_task_cancelled", "c13_repeated_cancel_of_a_discarded_task_reaches_no_worker"],
+         "timeout": 1500, "jobs": 2, "mem_gb": 24},
     ],
 }
 
@@ -408,7 +414,9 @@ PROPS["C03"] = {
     "functions": ["work_steal::WorkStealQueue::{push,pop,len}", "ordered_work_steal::OrderedWorkStealQueue::{push_with_priority,pop,len}"],
     "bounds": "plain queue: 2 threads x 1 operation each (all four pairs of push/pop) on a shared queue pre-filled with 0..=2 items, thread B's whole "
               "operation placed at one symbolic scheduling point inside thread A's (every Injector operation and every atomic operation is one) "
-              "or after it; ordered queue: the push/push pair only, priorities in {0,1}; SeqCst.",
+              "or after it; ordered queue: the push/push pair only, priorities in {0,1}; SeqCst. Sequential bookkeeping of the plain queue: the local pop "
+              "that consults the shared queue first (every tick value that triggers it, 1..=3 shared items) and a local overflow (capacity 2) into a shared "
+              "queue holding 0..=2 items - reported length = items held = what pop() drains.",
     "outside": "ordered-queue pairs that involve a pop (out of memory), 3 threads, non-nested interleavings, weak memory, internals of st3/crossbeam "
                "(trusted linearizable), local queues and steals between them (the ordered local queue's stale length after a sibling's steal is a "
                "native-only finding, DESIGN 8.2), drain-returns-exactly-the-rest for local queues.",
@@ -452,7 +460,8 @@ PROPS["C09"] = {
     "functions": ["coroutine::suspender::Suspender::{suspend_with,until_with,cancel,timestamp,is_cancel}",
                   "Coroutine::{resume_with,raw_resume,syscall,running,suspend,cancel,complete}", "state::change_state + listener broadcast"],
     "bounds": "3 scripted coroutines resumed once each on one thread; each first step symbolic from {plain suspend, until(ts), cancel, until(ts) in "
-              "Syscall state, cancel in Syscall state} with symbolic 64-bit timestamps.",
+              "Syscall state, cancel in Syscall state, cancel while parked in Syscall(Suspend) (what EventLoop::wait_just leaves behind)} with symbolic "
+              "64-bit timestamps.",
     "outside": "more coroutines / deeper histories, real stack switching, the signal-driven cancel racing with a switch, EventLoop::wait_just itself "
                "(its yielding part is transcribed as co.syscall(Suspend(ts)) + suspender.until(ts)).",
     "assumptions": _CO_ASSUME + ["E8: signal-handler installation skipped"],
